@@ -115,10 +115,13 @@ Definition enc_bitmap (n : Z) (e : estate) : result (list bool) :=
 Definition enc_prims : prims estate :=
   mkPrims estate enc_numeric enc_string enc_codeflag enc_new_refval enc_constant enc_factor enc_bitmap.
 
+(* switch_subset_context + [state.idx_value = 0] *)
+Definition enc_switch (i : nat) (e : estate) : estate := mkE (e_w e) (e_vals e) 0 i.
+
 (* Encoder.process_template_data for uncompressed data: the bits of all subsets,
    one after the other; also returns the descriptors/links recorded *)
 Definition encode_uncompressed (T : descs) (vals : list (list value))
   : result (list subset_out * writer) :=
-  let* (outs, e) := run_subsets enc_prims T (fun i e => mkE (e_w e) (e_vals e) 0 i) 0 (length vals)
+  let* (outs, e) := run_subsets enc_prims T enc_switch 0 (length vals)
                       (mkE [] vals 0 0) [] in
   Ok (outs, e_w e).
